@@ -157,4 +157,21 @@ PROPS = {
             "spec oracle, not proved",
         ],
     },
+    "C19": {
+        "harness": [{"cmd": "c19", "n": {"quick": 500, "thorough": 20000}}],
+        "rule": "random 2-4 row x 3-12 column nucleotide / protein alignments (half of the nucleotide ones carry an ORF) x "
+                "one of: Clone, CloneSeqBag, SubAlign, SelectSites, Transpose, BuildBootstrap, Unalign, Consensus, "
+                "Sequence.Clone, RandSubAlign(non consecutive); the six format writers; statistics; dna.DistMatrix (7 "
+                "models); protein MLDist; NewPwAligner.Alignment (both algorithms); LongestORF; Phaser.Phase; mutation "
+                "counters; plus the deliberately sharing Sample and RandSubAlign(consecutive).  Each case runs the "
+                "two-step experiments on the real objects: snapshot source - call - snapshot; overwrite every residue of "
+                "the result - snapshot source; fresh run, overwrite every residue of the source - snapshot result; "
+                "non-trivial = every case; distinct = distinct (op, arguments, input)",
+        "nontrivial": lambda m: True,
+        "assumptions": [
+            "Go slices are views (buffer, offset, length) into a heap of buffers; make+copy/append allocate",
+            "Sample, RandSubAlign(consecutive) (and Append, IterateChar, SequenceChar) share buffers by design; they "
+            "are not in the property's list: the model predicts the sharing, the spec oracle does not judge them",
+        ],
+    },
 }
